@@ -427,6 +427,14 @@ func (l *Lexer) readRawString() string {
 				result.WriteByte('`')
 				continue
 			}
+			if l.readPosition < len(l.input) {
+				// any other escape is kept as written; consuming both characters
+				// keeps `\\` from hiding the backtick that follows it
+				result.WriteByte('\\')
+				l.ReadChar()
+				result.WriteByte(l.CurrentChar)
+				continue
+			}
 		}
 		if l.CurrentChar == '`' {
 			break
